@@ -1216,9 +1216,8 @@ def suite_trap(out, tier, seed):
         elif kind == "foreign" and new:
             out.fail(scen, repr(new), "a foreign community is never delivered")
             break
-        elif kind == "other-version" and new:
-            out.fail(scen, repr(new), "a version-0 message is not an SNMPv2c notification of this listener")
-            break
+        # (kind "other-version": whether a version-0 message carrying a v2 trap PDU is delivered is not claimed either way;
+        #  it is sent so that the listener has seen another protocol version before the v2c notifications)
         if proto.transport.closed:
             out.fail(scen, "the listener closed its transport", "later notifications are still delivered")
             break
